@@ -25,11 +25,19 @@ def main():
     root = Path(tempfile.mkdtemp(prefix="xvsub-"))
     out = []
     try:
-        mods = [cfgbuild.load_library(lib, root) for lib in data["libs"]]
+        mods = []
+        for lib in data["libs"]:
+            try:
+                mods.append(cfgbuild.load_library(lib, root))
+            except Exception as e:
+                mods.append(RuntimeError(f"library cannot be loaded: {type(e).__name__}: {e}"[:300]))
         for ci, case in enumerate(data["cases"]):
-            rec = {"variants": [], "error": None}
+            rec = {"variants": [], "error": None, "lines": [], "impl": [], "argsrc": {}}
             try:
                 mod = mods[case["lib"]]
+                if isinstance(mod, Exception):
+                    raise mod
+                lib = data["libs"][case["lib"]]
                 objs = cfgbuild.build_graph(mod, case["graph"])
                 rec["unsubmitted"] = objs[0].__xpm__.full_identifier.all.hex()
                 envs = [("dry-run/wsA/default-launcher", RunMode.DRY_RUN, False), ("dry-run/wsB/explicit-launcher", RunMode.DRY_RUN, True),
@@ -46,6 +54,17 @@ def main():
                             else:
                                 objs[0].submit(init_tasks=init)
                             job = objs[0].__xpm__.job
+                            # the same submission for the model: the graph as it is now, with its tags / added dependencies, and
+                            # the environment as explicit inputs (Model/IdentEnv.lean); the model echoes what it holds of them
+                            env = {"launcher": 1 if explicit else None, "workspace": ei,
+                                   "runmode": "generate-only" if mode == RunMode.GENERATE_ONLY else "dry-run"}
+                            nodes = cfgbuild.model_graph(objs, lib=lib, stats=rec["argsrc"])
+                            rec["argsrc"]["extra:environments"] = rec["argsrc"].get("extra:environments", 0) + 1
+                            rec["lines"] += [{"op": "graph", "nodes": nodes, "env": env}, {"op": "extras"}, {"op": "full", "n": 0}]
+                            rec["impl"] += [{"ok": True},
+                                            {"tags": sum(len(nd["tags"]) for nd in nodes), "deps": sum(len(nd["deps"]) for nd in nodes),
+                                             "workspace": env["workspace"], "launcher": env["launcher"], "runmode": env["runmode"]},
+                                            {"id": objs[0].__xpm__.identifier.all.hex()}]
                             rec["variants"].append({
                                 "env": name, "identifier": objs[0].__xpm__.identifier.all.hex(), "relpath": str(job.relpath),
                                 "typeid": str(objs[0].__xpmtype__.identifier),
